@@ -198,6 +198,17 @@ def default_externals():
     return _EXT[0]
 
 
+def _narrow(ctx, v):
+    """An optional number that is known to be present on this path is passed on as the number."""
+    if isinstance(v, Opt) and not ctx.pure:
+        c = as_const_bool(v.isnone) if not isinstance(v.isnone, bool) else v.isnone
+        if c is False:
+            return v.val
+        if c is None and not ctx._sat(v.isnone):
+            return v.val
+    return v
+
+
 def bind_args(interp, finfo, full_args, kwargs, node=None):
     env = Env(finfo, finfo.module)
     interp.bind_params(finfo, env, full_args, kwargs, node)
@@ -209,7 +220,7 @@ def bind_args(interp, finfo, full_args, kwargs, node=None):
 # ------------------------------------------------------------------------------------------
 def apply_contract(interp, con, finfo, full_args, kwargs, node):
     ctx = interp.ctx
-    full_args = [interp.deref(a) for a in full_args]
+    full_args = [_narrow(ctx, interp.deref(a)) for a in full_args]
     locs = bind_args(interp, finfo, full_args, kwargs, node)
     self_obj = locs.get("self")
     f = Frame(self_obj, locs, ctx, interp)
@@ -507,6 +518,7 @@ class IncrementalPathSolver(object):
         self.s = z3.Solver()
         self.s.set("timeout", 400)
         self.npc = 0
+        self.prefix_ids = []
         self.timeout_ms = timeout_ms
 
     def solve(self, ob):
@@ -514,11 +526,13 @@ class IncrementalPathSolver(object):
         c = as_const_bool(ob.goal)
         if c is True:
             return Verdict(ob, "discharged", "trivial", 0.0)
+        if self.prefix_ids[:len(ob.pc)] != [c.get_id() for c in ob.pc[:len(self.prefix_ids)]][:len(ob.pc)] or \
+                len(ob.pc) < len(self.prefix_ids):
+            return solve_obligation(ob, ob.symbols, self.timeout_ms)   # closed ("using") obligation: own small query
         for pcond in ob.pc[self.npc:]:
             self.s.add(pcond)
-        self.npc = max(self.npc, len(ob.pc))
-        if len(ob.pc) < self.npc:
-            return solve_obligation(ob, ob.symbols, self.timeout_ms)   # not a prefix (should not happen)
+            self.prefix_ids.append(pcond.get_id())
+        self.npc = len(ob.pc)
         self.s.push()
         self.s.add(z3.Not(ob.goal))
         r = self.s.check()
@@ -554,19 +568,23 @@ def solve_obligation(ob, symbols, timeout_ms=None):
         s.add(p)
     s.add(neg)
     quant = has_quantifier(neg) or any(has_quantifier(p) for p in ob.pc)
-    r = _check(s, timeout_ms // (4 if quant else 2))
+    r = z3.unknown
     backend = "z3"
-    if r == z3.unknown and not quant:
+    if not quant:
+        # quantifier-free: try the nonlinear-real tactic first (fast where it applies), then the default solver
         try:
             s2 = z3.Tactic("qfnra-nlsat").solver()
             for p in ob.pc:
                 s2.add(p)
             s2.add(neg)
-            r2 = _check(s2, timeout_ms // 2)
+            r2 = _check(s2, min(4000, timeout_ms // 5))
             if r2 != z3.unknown:
                 r, s, backend = r2, s2, "z3-nlsat"
         except z3.Z3Exception:
             pass
+    if r == z3.unknown:
+        r = _check(s, timeout_ms // 4)
+        backend = "z3"
     if r == z3.unknown:
         rc = cvc5_check(s.to_smt2(), timeout_ms // 4)
         if rc == "unsat":
@@ -574,7 +592,7 @@ def solve_obligation(ob, symbols, timeout_ms=None):
         # undecided by both back ends: look for a *candidate* counter-model of a weakened query (quantified
         # hypotheses dropped, list lengths bounded).  A candidate is only ever reported as a violation if it
         # reproduces on the real code (native replay); otherwise the obligation stays undecided.
-        cand = find_candidate(ob, symbols, min(timeout_ms // 2, 10000))
+        cand = find_candidate(ob, symbols, min(timeout_ms // 4, 5000)) if quant else None
         if cand is not None:
             return Verdict(ob, "candidate", "z3-weakened", time.time() - t0, model=cand,
                            reason="solver unknown on the full query (%s); cvc5: %s" % (s.reason_unknown(), rc))
@@ -807,6 +825,7 @@ def verify_contract(program, registry, con, timeout_ms=None, active_cases=None, 
     res["covers"] = covers
     solver_s = 0.0
     seen_keys = set()
+    undecided_count = {}
     for p in paths:
         if not p.obligations:
             continue
@@ -819,7 +838,12 @@ def verify_contract(program, registry, con, timeout_ms=None, active_cases=None, 
             if key in seen_keys:
                 continue
             seen_keys.add(key)
-            v = inc.solve(ob)
+            if undecided_count.get(ob.name, 0) >= 2:
+                v = Verdict(ob, "unknown", "skipped", 0.0, reason="two instances of this clause are already undecided (time budget)")
+            else:
+                v = inc.solve(ob)
+            if v.status in ("unknown", "candidate"):
+                undecided_count[ob.name] = undecided_count.get(ob.name, 0) + 1
             solver_s += v.secs
             rec = {"name": ob.name, "kind": ob.kind, "status": v.status, "backend": v.backend,
                    "secs": round(v.secs, 4), "props": ob.meta.get("props", []), "path": ob.path}
